@@ -1871,7 +1871,10 @@ class AstEval:
         kwargs = {}
         for kw_arg in arg.keywords:
             if kw_arg.arg is None:
-                kwargs.update(await self.aeval(kw_arg.value))
+                for key, value in (await self.aeval(kw_arg.value)).items():
+                    if key in kwargs:
+                        raise TypeError(f"got multiple values for keyword argument '{key}'")
+                    kwargs[key] = value
             else:
                 kwargs[kw_arg.arg] = await self.aeval(kw_arg.value)
         #
